@@ -1,5 +1,6 @@
 CONSTANTS NthYears = {1900, 1999, 2000, 2001, 2004, 2015, 2016, 2017, 2018, 2019, 2020, 2021, 2022, 2023, 2024, 2100}
           Days <- QuickDays
           GenDays <- ThoroughGenDays
+          GenFams = {"gmon", "gnth", "gnum", "gnumb", "gnp", "gper", "gfmt"}
 INIT GenInit
 NEXT GenNext
